@@ -54,7 +54,8 @@ def genPglzToks (target : Nat) : Gen (List Pglz.Tok) := do
         | 2 => Gen.range 1 (max len 1)          -- overlapping copy: offset ≤ length
         | _ => Gen.range 1 64
       let lim := min cur 4095
-      let off := if offWant ≤ lim then offWant else if ← Gen.bool then lim else 1 + offWant % lim
+      let pick ← Gen.bool
+      let off := if offWant ≤ lim then offWant else if pick then lim else 1 + offWant % lim
       ts := ts.push (.mat off len); cur := cur + len
   return ts.toList
 
@@ -92,7 +93,8 @@ def genLz4Block (target : Nat) : Gen Lz4.Block := do
       | 2 => Gen.range 1 (max len 1)
       | _ => Gen.range 1 64
     let lim := min avail 65535
-    let off := if offWant ≤ lim then offWant else if ← Gen.bool then lim else 1 + offWant % lim
+    let pick ← Gen.bool
+    let off := if offWant ≤ lim then offWant else if pick then lim else 1 + offWant % lim
     ss := ss.push ⟨lits, off, len⟩; cur := avail + len
   let nlast ← match ← Gen.below 4 with
     | 0 => pure 0
@@ -145,7 +147,7 @@ def genContent (size : Nat) : Gen Content := do
 
 /-- chunk sizes summing to `total`: PostgreSQL's 1996, another fixed size 1..2000, or random sizes;
 `maxRows` bounds the number of chunks -/
-def genCuts (total : Nat) (maxRows : Nat := 600) : Gen (List Nat) := do
+def genCuts (total : Nat) (maxRows : Nat := 300) : Gen (List Nat) := do
   let fixedCuts (c : Nat) : List Nat :=
     let c := max c ((total + maxRows - 1) / maxRows)
     let c := max c 1
